@@ -227,7 +227,11 @@ def main(argv=None):
             for gid in known_hits[fid]:
                 g = [q for q in groups if q.gid == gid][0]
                 obs = results[gid][1]
-                violations.append((g, [o for o in obs if o['status'] == 'refuted'] or obs[:1]))
+                ref_ = [o for o in obs if o['status'] == 'refuted']
+                if ref_:
+                    violations.append((g, ref_))
+                else:            # no verdict in the region and the recorded witness passes: undecided, not a violation
+                    undecided.append((g, 'region of %s: no verdict and the recorded witness no longer fails' % fid))
 
     # bounded tier failures (native sweeps) that are not inside a known finding
     for nr in native_res:
